@@ -4,21 +4,6 @@ From Coq Require Import List ZArith Bool Arith Lia.
 From MX Require Import Exec.Model Exec.Spec Exec.Basics Exec.SpecMono Exec.Sim Exec.Reads.
 Import ListNotations.
 
-(** * Well-formed definitions (the vocabulary the theorems speak about) *)
-Fixpoint call_free (e : expr) : bool :=
-  match e with
-  | ECall _ _ => false
-  | EBin _ a b => call_free a && call_free b
-  | EIfPos c t e' => call_free c && call_free t && call_free e'
-  | _ => true
-  end.
-Definition stmt_ok (s : stmt) : bool :=
-  match s with SAssign _ => true | STry e _ => call_free e end.
-Definition body_ok (b : list stmt) : bool := forallb stmt_ok b.
-(** a failure of a callee is never handled by the caller (D20 is outside the theorems) *)
-Definition defs_ok (cells : list (cid * cell)) : Prop :=
-  forall c cl, lookup_cell cells c = Some cl -> body_ok (cl_body cl) = true.
-
 (** * Coverage of reads *)
 Definition has (st : state) (i : item) : Prop := lookup_data (s_data st) i <> None.
 
@@ -61,7 +46,8 @@ Record Cov (st : state) : Prop := mkCov {
   cv_items : forall i, In (node_of i) (s_nodes st) ->
              is_cached st (fst i) = true /\ (has st i \/ In i (s_stack st));
   cv_refs : rs_ok (List.length (s_stack st)) (s_refstack st);
-  cv_obj : forall c, In (NObj c) (s_nodes st) -> is_cached st c = false }.
+  cv_obj : forall c, In (NObj c) (s_nodes st) -> is_cached st c = false;
+  cv_taint : s_taint st <= List.length (s_stack st) }.
 
 Definition StackOK (st : state) : Prop :=
   forall x, In x (s_stack st) -> is_cached st (fst x) = true -> lookup_data (s_data st) x = None.
@@ -211,6 +197,12 @@ Proof.
     simpl in B. destruct B as (B1 & B2). destruct Hin as [Hin|Hin].
     + inversion Hin; subst. lia.
     + apply (IH Hin d2 B2). lia.
+Qed.
+
+Lemma pop_refs_taint st d t rs : s_taint (fst (pop_refs st d t rs)) = s_taint st.
+Proof.
+  revert st; induction rs as [|[d' r'] tl IH]; intros st; simpl; [reflexivity|].
+  destruct (Nat.eqb d' d); [|reflexivity]. now rewrite IH.
 Qed.
 
 Lemma pop_refs_other st d t rs :
@@ -488,7 +480,12 @@ Proof.
     destruct (exec_body f st1 (snd i) [] (cl_body cl) (cl_body cl) 0) as [[rb st2] ln] eqn:Eb.
     pose proof (IHb _ _ _ _ _ _ _ _ _ Eb H1) as H2.
     destruct rb as [v|k|].
-    + destruct (cl_cached cl).
+    + destruct (tainted st2).
+      { destruct v as [z|]; [|destruct (cl_allow_none cl)]; pinv2; unfold pop_tainted;
+          rewrite ?rollback_frame_reent; try exact H2;
+          (change (s_reent (upd_rolled (rollback_frame st2 0) (s_rolled st2))) with (s_reent (rollback_frame st2 0));
+           rewrite rollback_frame_reent; exact H2). }
+      destruct (cl_cached cl).
       * unfold store_value in H.
         destruct v as [z|]; [|destruct (cl_allow_none cl)]; pinv2;
           rewrite ?pop_frame_reent, ?rollback_frame_reent; exact H2.
@@ -512,124 +509,3 @@ Proof.
 Qed.
 
 (** * Call-free expressions: evaluation touches only the reference stack *)
-Lemma upd_refstack_id st : upd_refstack st (s_refstack st) = st.
-Proof. destruct st; reflexivity. Qed.
-
-Definition cf_reads (st' : state) (me : cid) (d : nat) (ds : list rd) : Prop :=
-  Forall (fun x => (exists r, x = RName me r) \/ (exists r, x = RAttr r /\ In (d, r) (s_refstack st'))) ds.
-
-Lemma cf_reads_weaken st st' me d ds :
-  (forall p, In p (s_refstack st) -> In p (s_refstack st')) -> cf_reads st me d ds -> cf_reads st' me d ds.
-Proof.
-  intros Hs H. unfold cf_reads in *. eapply Forall_impl; [|exact H].
-  intros x [A|(r & -> & B)]; [now left|right; exists r; split; [reflexivity|now apply Hs]].
-Qed.
-
-Lemma callfree_eval : forall f st args locs line e r st' me,
-  call_free e = true -> eval_expr f st args locs line e = (r, st') ->
-  (exists new, st' = upd_refstack st (new ++ s_refstack st) /\
-               Forall (fun p => fst p = List.length (s_stack st) - 1) new) /\
-  forall D inp, snd D = s_refs st ->
-    fst (dr_expr f D inp me args locs e) = r /\
-    cf_reads st' me (List.length (s_stack st) - 1) (snd (dr_expr f D inp me args locs e)).
-Proof.
-  induction f as [|f IH]; intros st args locs line e r st' me Hcf H.
-  { simpl in H. inversion H; subst. split.
-    - exists []. split; [now rewrite upd_refstack_id|constructor].
-    - intros D inp HD. split; [reflexivity|constructor]. }
-  destruct e; simpl in H, Hcf; try discriminate.
-  - inversion H; subst. split.
-    + exists []. split; [now rewrite upd_refstack_id|constructor].
-    + intros; split; [reflexivity|constructor].
-  - inversion H; subst. split.
-    + exists []. split; [now rewrite upd_refstack_id|constructor].
-    + intros; split; [reflexivity|constructor].
-  - inversion H; subst. split.
-    + exists []. split; [now rewrite upd_refstack_id|constructor].
-    + intros; split; [reflexivity|constructor].
-  - (* EBin *)
-    apply andb_true_iff in Hcf as (C1 & C2).
-    destruct (eval_expr f st args locs line e1) as [r1 st1] eqn:E1.
-    destruct (IH _ _ _ _ _ _ _ me C1 E1) as ((n1 & S1 & F1) & R1).
-    assert (Hst1 : s_stack st1 = s_stack st /\ s_refs st1 = s_refs st) by (subst st1; split; reflexivity).
-    destruct Hst1 as (K1 & Rf1).
-    destruct r1 as [va|k|].
-    + destruct (eval_expr f st1 args locs line e2) as [r2 st2] eqn:E2.
-      destruct (IH _ _ _ _ _ _ _ me C2 E2) as ((n2 & S2 & F2) & R2).
-      assert (Hst' : st' = st2 /\ r = match r2 with Val vb => arith o va vb | Err k => Err k | OutOfFuel => OutOfFuel end).
-      { destruct r2; inversion H; subst; auto. }
-      destruct Hst' as (-> & ->).
-      split.
-      * exists (n2 ++ n1). split.
-        -- rewrite S2, S1. simpl. now rewrite app_assoc.
-        -- apply Forall_app. split; [rewrite K1 in F2; exact F2|exact F1].
-      * intros D inp HD. destruct (R1 D inp HD) as (A1 & B1).
-        destruct (R2 D inp ltac:(now rewrite Rf1)) as (A2 & B2).
-        simpl. destruct (dr_expr f D inp me args locs e1) as [r1' d1]. simpl in *. subst r1'.
-        destruct (dr_expr f D inp me args locs e2) as [r2' d2]. simpl in *. subst r2'.
-        rewrite K1 in B2.
-        assert (B1' : cf_reads st2 me (List.length (s_stack st) - 1) d1).
-        { eapply cf_reads_weaken; [|exact B1]. intros p Hp. rewrite S2. simpl. apply in_or_app. now right. }
-        destruct r2; simpl; (split; [reflexivity|apply Forall_app; split; assumption]).
-    + inversion H; subst. split; [exists n1; split; [reflexivity|assumption]|].
-      intros D inp HD. destruct (R1 D inp HD) as (A1 & B1). simpl.
-      destruct (dr_expr f D inp me args locs e1) as [r1' d1]. simpl in *. subst r1'. split; [reflexivity|assumption].
-    + inversion H; subst. split; [exists n1; split; [reflexivity|assumption]|].
-      intros D inp HD. destruct (R1 D inp HD) as (A1 & B1). simpl.
-      destruct (dr_expr f D inp me args locs e1) as [r1' d1]. simpl in *. subst r1'. split; [reflexivity|assumption].
-  - (* EIfPos *)
-    apply andb_true_iff in Hcf as (C12 & C3). apply andb_true_iff in C12 as (C1 & C2).
-    destruct (eval_expr f st args locs line e1) as [r1 st1] eqn:E1.
-    destruct (IH _ _ _ _ _ _ _ me C1 E1) as ((n1 & S1 & F1) & R1).
-    assert (Hst1 : s_stack st1 = s_stack st /\ s_refs st1 = s_refs st) by (subst st1; split; reflexivity).
-    destruct Hst1 as (K1 & Rf1).
-    destruct r1 as [[z|]|k|].
-    + assert (Hb : exists eb, call_free eb = true /\ eval_expr f st1 args locs line eb = (r, st') /\
-                              eb = (if Z.ltb 0 z then e2 else e3)).
-      { destruct (Z.ltb 0 z); eexists; repeat split; eauto. }
-      destruct Hb as (eb & Cb & Eb & Heb).
-      destruct (IH _ _ _ _ _ _ _ me Cb Eb) as ((n2 & S2 & F2) & R2).
-      split.
-      * exists (n2 ++ n1). split.
-        -- rewrite S2, S1. simpl. now rewrite app_assoc.
-        -- apply Forall_app. split; [rewrite K1 in F2; exact F2|exact F1].
-      * intros D inp HD. destruct (R1 D inp HD) as (A1 & B1).
-        destruct (R2 D inp ltac:(now rewrite Rf1)) as (A2 & B2).
-        simpl. destruct (dr_expr f D inp me args locs e1) as [r1' d1]. simpl in *. subst r1'.
-        rewrite K1 in B2.
-        assert (B1' : cf_reads st' me (List.length (s_stack st) - 1) d1).
-        { eapply cf_reads_weaken; [|exact B1]. intros p Hp. rewrite S2. simpl. apply in_or_app. now right. }
-        subst eb. destruct (Z.ltb 0 z).
-        -- destruct (dr_expr f D inp me args locs e2) as [r2' d2]. simpl in *. subst r2'.
-           split; [reflexivity|apply Forall_app; split; assumption].
-        -- destruct (dr_expr f D inp me args locs e3) as [r2' d2]. simpl in *. subst r2'.
-           split; [reflexivity|apply Forall_app; split; assumption].
-    + inversion H; subst. split; [exists n1; split; [reflexivity|assumption]|].
-      intros D inp HD. destruct (R1 D inp HD) as (A1 & B1). simpl.
-      destruct (dr_expr f D inp me args locs e1) as [r1' d1]. simpl in *. subst r1'. split; [reflexivity|assumption].
-    + inversion H; subst. split; [exists n1; split; [reflexivity|assumption]|].
-      intros D inp HD. destruct (R1 D inp HD) as (A1 & B1). simpl.
-      destruct (dr_expr f D inp me args locs e1) as [r1' d1]. simpl in *. subst r1'. split; [reflexivity|assumption].
-    + inversion H; subst. split; [exists n1; split; [reflexivity|assumption]|].
-      intros D inp HD. destruct (R1 D inp HD) as (A1 & B1). simpl.
-      destruct (dr_expr f D inp me args locs e1) as [r1' d1]. simpl in *. subst r1'. split; [reflexivity|assumption].
-  - (* ERefN *)
-    inversion H; subst. split.
-    + exists []. split; [now rewrite upd_refstack_id|constructor].
-    + intros D inp HD. simpl. rewrite HD. split; [reflexivity|].
-      constructor; [left; eexists; reflexivity|constructor].
-  - (* ERefA *)
-    destruct (lookup_ref (s_refs st) r0) as [[sp v]|] eqn:El; inversion H; subst.
-    + split.
-      * exists [(List.length (s_stack st) - 1, r0)]. split; [reflexivity|]. constructor; [reflexivity|constructor].
-      * intros D inp HD. simpl. rewrite HD, El. simpl. split; [reflexivity|].
-        constructor; [|constructor]. right. exists r0. split; [reflexivity|]. simpl. now left.
-    + split.
-      * exists []. split; [now rewrite upd_refstack_id|constructor].
-      * intros D inp HD. simpl. rewrite HD, El. simpl. split; [reflexivity|].
-        constructor.
-  - (* ERaise *)
-    inversion H; subst. split.
-    + exists []. split; [now rewrite upd_refstack_id|constructor].
-    + intros; split; [reflexivity|constructor].
-Qed.
